@@ -12,6 +12,7 @@ import MdpaxV.Model.SemiAsync
 import MdpaxV.Model.Spaces
 import MdpaxV.Model.Matrices
 import MdpaxV.Model.Shipped
+import MdpaxV.Model.Probs
 open MdpaxV
 
 /-! parsing / printing -/
@@ -223,6 +224,22 @@ def handle (d : DState) (line : String) : Except String (DState × String) := do
             let c : MirjaliliCfg Rat := { maxDemand := ← pNat (← arg a "D"), m := ← pNat (← arg a "m"), Q := ← pNat (← arg a "Q"), cv := ← pRat (← arg a "cv"), cf := ← pRat (← arg a "cf"), cs := ← pRat (← arg a "cs"), cw := ← pRat (← arg a "cw"), ch := ← pRat (← arg a "ch") }
             pure (d, shippedTable (mirjaliliStates c) (mirjaliliActions c) (mirjaliliEvents c) (mirjaliliIdx c) (mirjaliliTrans c))
         | k => throw s!"unknown kind {k}"
+    | "demoorprobs" => do
+        let cdf ← pList pRat (← arg a "cdf")
+        pure (d, s!"probs={fList fRat (deMoorProbs cdf)}")
+    | "censored" => do
+        let l ← pList pRat (← arg a "l")
+        pure (d, s!"probs={fList fRat (censored l)}")
+    | "mirjprobs" => do
+        -- event probabilities of one (weekday, order) row in the order of `mirjaliliEvents`
+        let nbt := (← pList pRat (← arg a "nb")).toArray
+        let cat ← pList pRat (← arg a "cat")
+        let order ← pNat (← arg a "order")
+        let c : MirjaliliCfg Rat := { maxDemand := ← pNat (← arg a "D"), m := ← pNat (← arg a "m"), Q := ← pNat (← arg a "Q"), cv := 0, cf := 0, cs := 0, cw := 0, ch := 0 }
+        let dp := (censored nbt.toList).toArray
+        let probs := (mirjaliliEvents c).map fun ev =>
+          mirjaliliProb (fun d => dp.getD d 0) (fun _ => cat) order (ev.headD 0).toNat ((ev.drop 1).map Int.toNat)
+        pure (d, s!"probs={fList fRat probs} sum={fRat (lsum probs)}")
     | "qrow" => do
         let p ← getP d (← arg a "id")
         let γ ← pRat (← arg a "gamma"); let V ← pList pRat (← arg a "V"); let s ← pNat (← arg a "s")
